@@ -348,7 +348,13 @@ def isSpace (c : Char) : Bool := Tables.spaceChars.contains c
 def normString (s : Str) : Str := s.map (fun c => if c = '\t' ∨ c = '\n' ∨ c = '\r' then ' ' else c)
 
 def stripL (s : Str) : Str := s.dropWhile isSpace
+/-- `s.strip()` (every `str.isspace` character; used by the driver's `float()`) -/
 def strip (s : Str) : Str := (stripL (stripL s).reverse).reverse
+
+def isSp (c : Char) : Bool := c = ' '
+def stripSpL (s : Str) : Str := s.dropWhile isSp
+/-- `s.strip(" ")`: only #x20 (after C09's repair of `_strip_and_collapse_whitespace`) -/
+def stripSp (s : Str) : Str := (stripSpL (stripSpL s).reverse).reverse
 
 /-- `re.sub(" +", " ", s)` -/
 def collapse : Str → Str
@@ -359,8 +365,14 @@ def collapse : Str → Str
 /-- the whitespace handling `Literal.__new__` always applies to xsd:normalizedString / xsd:token -/
 def wsNorm (dt : Option Str) (s : Str) : Str :=
   if dt = some Tables.xsdNormalizedString then normString s
-  else if dt = some Tables.xsdToken then collapse (strip (normString s))
+  else if dt = some Tables.xsdToken then collapse (stripSp (normString s))
   else s
+
+/-- the lexical form `Literal.__new__` ends with: the white-space rule is applied to the argument
+    (before the lexical-to-value mapping), then the optional normalisation, then the white-space rule again -/
+def newLex (E : Ext) (normalize : Bool) (dt : Option Str) (lex : Str) : Str :=
+  let lex0 := wsNorm dt lex
+  wsNorm dt (if normalize then E.normFull dt lex0 else lex0)
 
 /-- `Literal.__new__(lexical: str, lang, datatype, normalize)` -/
 def mkLit (E : Ext) (normalize : Bool) (lex : Str) (lang dt : Option Str) : Except Err Term :=
@@ -369,9 +381,9 @@ def mkLit (E : Ext) (normalize : Bool) (lex : Str) (lang dt : Option Str) : Exce
   else
     match lang with
     | some l =>
-      if validLangTag l then .ok (.lit (wsNorm dt (if normalize then E.normFull dt lex else lex)) dt lang)
+      if validLangTag l then .ok (.lit (newLex E normalize dt lex) dt lang)
       else .error .valueError
-    | none => .ok (.lit (wsNorm dt (if normalize then E.normFull dt lex else lex)) dt lang)
+    | none => .ok (.lit (newLex E normalize dt lex) dt lang)
 
 /-- `Variable.__new__` -/
 def mkVar : Str → Except Err Term
